@@ -471,6 +471,7 @@ func genC08(r *Rng, idx int, tier string) *World {
 	mix.poolLo, mix.poolHi = 3, 8
 	w := genTableWorld(r, mix)
 	var ops []Op
+	var gets []string
 	hid := 7000
 	for _, op := range w.Ops {
 		if op.K == "handle" {
@@ -478,6 +479,17 @@ func genC08(r *Rng, idx int, tier string) *World {
 			if r.Pct(60) && !contains(op.Methods, "GET") && len(op.Methods) > 0 {
 				op.Methods = []string{"GET"}
 			}
+		}
+		if isAdmin(op.K) && r.Pct(25) && len(gets) > 0 {
+			// a HEAD (or GET) whose handler panics after writing part of its body: whatever the router
+			// keeps per request (the HEAD wrapper's byte count) must not leak into the next request
+			p, _ := ParsePattern(pick(r, gets), w.Opts.Interceptors)
+			path, _ := FixedWitness(p)
+			ops = append(ops, Op{T: 11, K: "req", Req: &Req{Method: pick(r, []string{"HEAD", "HEAD", "GET"}), Path: path},
+				Faults: []*FaultSpec{{Site: pick(r, []string{"h:head", "h:route"}), Phase: "mid", Val: pick(r, []string{"str", "ptr", "err"})}}})
+		}
+		if op.K == "handle" && contains(op.Methods, "GET") {
+			gets = append(gets, op.Pattern)
 		}
 		ops = append(ops, op)
 		if isAdmin(op.K) && r.Pct(20) {
